@@ -157,3 +157,45 @@ func (g *Gen) addNamedTypesDemo() *S {
 	p.Funcs = append([]*Func{{Name: name, Params: []string{"k"}, PTypes: []*Ty{TInt}, Results: []*Ty{TInt}, Body: body}, sum, mk}, p.Funcs...)
 	return pr(sS("types"), &E{K: "call", Fn: name, Ty: TInt, NRes: 1, Args: []*E{lit(TInt, int64(r.Intn(9)))}})
 }
+
+// ---- bundled string library (GoStrLib.tla)
+
+var libAsciiLits = []string{" ", "a", "b", "ab", "go", "l", "q", "Z", "x", " y"}
+var libPadded = []string{" q ", "\ta b\n", "  go", "ab \t", "a,b,,c", "x y x y"}
+
+func (g *Gen) libLit(ss []string) *E { return &E{K: "str", Ty: TString, S: ss[g.r.Intn(len(ss))]} }
+
+// libSubject: a string expression to work on (often one of the padded / separator-rich literals)
+func (g *Gen) libSubject(depth int) *E {
+	if g.r.Intn(3) == 0 {
+		return g.libLit(libPadded)
+	}
+	return g.expr(TString, depth-1)
+}
+
+func (g *Gen) libStrExpr(depth int) *E {
+	lib := func(fn string, args ...*E) *E { return &E{K: "lib", Ty: TString, Fn: fn, Args: args} }
+	switch g.r.Intn(9) {
+	case 0:
+		return lib("strings.Repeat", g.libSubject(depth), lit(TInt, int64(g.r.Intn(4))))
+	case 1:
+		return lib("strings.TrimSuffix", g.libSubject(depth), g.libLit(libAsciiLits))
+	case 2:
+		return lib("strings.TrimSpace", g.libSubject(depth))
+	case 3:
+		return lib("strings.TrimRight", g.libSubject(depth), g.libLit(libAsciiLits))
+	case 4:
+		return lib("strings.ReplaceAll", g.libSubject(depth), g.libLit(libAsciiLits), g.expr(TString, 0))
+	case 5:
+		return lib("strings.Replace", g.libSubject(depth), g.libLit(libAsciiLits), g.expr(TString, 0), lit(TInt, int64(g.r.Intn(4)-1)))
+	case 6:
+		return lib("strconv.Itoa", g.expr(TInt, depth-1))
+	case 7:
+		sp := &E{K: "lib", Ty: SliceOf(TString), Fn: "strings.Split", Args: []*E{g.libSubject(depth), g.libLit(libAsciiLits)}}
+		return lib("strings.Join", sp, g.expr(TString, 0))
+	default:
+		// an element of a split (index 0 always exists)
+		sp := &E{K: "lib", Ty: SliceOf(TString), Fn: "strings.Split", Args: []*E{g.libSubject(depth), g.libLit(libAsciiLits)}}
+		return &E{K: "index", Ty: TString, X: sp, I: lit(TInt, 0)}
+	}
+}
